@@ -11,6 +11,9 @@ EXTENDS Def, Json
 
 CONSTANT SetSize
 
+RECURSIVE Rep(_, _)
+Rep(t, n) == IF n = 0 THEN "" ELSE t \o Rep(t, n - 1)
+Redefs == Rep("(defmacro smac (fn [x] (list 'quote x))) ", 120)
 Pool == <<
   "(def acc%T (fn [n a] (if (< n 1) a (acc%T (- n 1) (+ a n))))) (trace! (acc%T 20 0))",
   "(def mk%T (fn [k] (fn [x] (+ x k)))) (def add%T (mk%T 5)) (trace! (map add%T [1 2 3]))",
@@ -50,11 +53,17 @@ Pool == <<
   \* a future held in a shared global, already finished, read by several evaluations at once
   "(trace! (list @sfut %T @sfut)) (trace! (map (fn [i] (+ i @sfut)) [1 2 3 %T]))",
   "(def many%T (concat (range 0 50) (range 0 50) (range 0 50))) (trace! (count (map (fn [i] @sfut) many%T))) " \o
-  "(trace! (reduce + %T (map (fn [i] @sfut) (range 0 50)))) (trace! (count (map (fn [i] (+ i @sfut)) many%T)))" >>
+  "(trace! (reduce + %T (map (fn [i] @sfut) (range 0 50)))) (trace! (count (map (fn [i] (+ i @sfut)) many%T)))",
+  \* a SHARED macro, redefined (with the same definition) by one evaluation while others call it: "every global
+  \* definition is seen entirely or not at all": a reader never finds the name bound to something that is not the macro
+  \* (its operand is an undefined call: evaluated only if the name is, for a moment, an ordinary function)
+  Redefs \o "(trace! (smac (undefined-thing %T)))",
+  "(def many%T (concat (range 0 50) (range 0 50) (range 0 50))) (trace! (count (map (fn [i] (smac (undefined-thing i))) many%T))) " \o
+  "(trace! (count (map (fn [i] (smac (undefined-thing i %T))) many%T))) (trace! (smac (undefined-thing)))" >>
 SharedText == "(def sv [1 2 3]) (def sl '(10 20 30)) (def sm {:a 1 :b 2}) (def sr (rest [0 1 2 3 4 5])) " \o
               "(defmacro mrest (fn [& xs] xs)) (def shf (fn [a] (mrest + a (mrest + 1 0)))) " \o
               "(def tmpl (list '+ 1 (list '+ 2 3))) (defmacro mtmpl (fn [] tmpl)) " \o
-              "(def sfut (future (reduce + 0 [1 2 3]))) (def sfutv @sfut)"
+              "(def sfut (future (reduce + 0 [1 2 3]))) (def sfutv @sfut) (defmacro smac (fn [x] (list 'quote x)))"
 NP == Len(Pool)
 
 RECURSIVE SubstT(_, _, _)
